@@ -93,8 +93,8 @@ def gen_requests(g, rng, n):
     return reqs
 
 
-def sliver(g, q):
-    bx0, by0, bx1, by1 = g['bbox']
+def sliver(g, q, ext=None):
+    bx0, by0, bx1, by1 = ext or g['bbox']
     ow = min(q[2], bx1) - max(q[0], bx0)
     oh = min(q[3], by1) - max(q[1], by0)
     return ow <= 2 * max(g['res']) // 10 or oh <= 2 * max(g['res']) // 10
@@ -111,13 +111,13 @@ def map_url(q, scale, version, srs, latlon):
             '&FORMAT=image/png&TRANSPARENT=TRUE' % (version, key, srs, bbox, q[4], q[5]))
 
 
-def observe_maps(app, g, reqs, variants, rng, problems):
+def observe_maps(app, g, reqs, variants, rng, problems, ext=None):
     maps = []
     for q in reqs:
         version, srs, latlon = rng.choice(variants)
         n0 = len(app.log)
         r = app.get(map_url(q, app.scale, version, srs, latlon))
-        if r.status_int == 500 and 'Invalid BBOX' in r.text and sliver(g, q):
+        if r.status_int == 500 and 'Invalid BBOX' in r.text and (sliver(g, q) or sliver(g, q, ext)):
             # the request overlaps the grid by less than 2/10 pixel of some level: get_affected_level_tiles insets it to
             # nothing and the request is refused ("Invalid BBOX") instead of answered blank - no picture, so C01 has
             # nothing to say about it (recorded as an observation in DESIGN.md)
@@ -522,7 +522,7 @@ def run(ctx):
         app.tile_code = srs.replace(':', '')
         try:
             reqs = gen_requests(g, ctx.rng, nmap)
-            maps = observe_maps(app, g, reqs, variants, ctx.rng, problems)
+            maps = observe_maps(app, g, reqs, variants, ctx.rng, problems, kw.get('source_coverage'))
             # (a tile service has no feature info: the layer is not queryable)
             infos = [] if kw.get('tile_source') else observe_infos(app, g, ctx.rng, ninfo, variants, problems)
             if srs == 'EPSG:3857' and not kw.get('tile_source'):
